@@ -101,6 +101,15 @@ def bite_tests(prop: str) -> dict:
         else:
             env = dict(os.environ, VERIF_REPO=work, VERIF_BITE_RUN="1", VERIF_TIER="quick")
             r = subprocess.run([os.path.join(ROOT, "check"), prop, "--tier", "quick"], capture_output=True, text=True, env=env)
+            # a change whose code belongs to another property's units (seeded/<prop>/<m>/also_check) is also run against that check
+            also = os.path.join(d, "also_check")
+            if r.returncode != 1 and os.path.isfile(also):
+                for q in open(also).read().split():
+                    r2 = subprocess.run([os.path.join(ROOT, "check"), q, "--tier", "quick"], capture_output=True, text=True, env=env)
+                    if r2.returncode == 1:
+                        r = r2
+                        row["flagged_by"] = q
+                        break
             m = re.search(r"failed obligation: (\S+)", r.stdout)
             if r.returncode == 1:
                 row["outcome"] = "flagged"
